@@ -206,38 +206,7 @@ mod verif_codecs {
         kani::cover!(a > b + 1 && q == a);
     }
 
-    // ------------------------------------------------------------------ C10: declared size == written size
-    static mut COUNT: usize = 0;
-    fn write_slice_count(_w: &mut TableWriter, bytes: &[u8]) { unsafe { COUNT += bytes.len(); } }
-    fn declared_size_matches_written(n: usize) {
-        let mut pts: Vec<u16> = Vec::with_capacity(130);
-        let mut i = 0;
-        while i < n { pts.push(i as u16 * 2); i += 1; }
-        let pp = crate::tables::variations::PackedPointNumbers::Some(pts);
-        unsafe { COUNT = 0; }
-        let mut w = TableWriter::default();
-        pp.write_into(&mut w);
-        let written = unsafe { COUNT };
-        assert!(pp.compute_size() as usize == written);
-        kani::cover!(written > n);
-    }
-    //@defaults unit=U10.3 props=C10 tier=quick level=bounded bound="point-number sets of exactly 127 / 128 / 129 points (the count-encoding boundary), concrete values" timeout=900
-    //@harness fns=PackedPointNumbers::compute_size,PackedPointNumbers::write_into note="the size a tuple header declares for its point numbers equals the number of bytes written"
-    #[kani::proof]
-    #[kani::unwind(132)]
-    #[kani::stub(std::hash::RandomState::new, fixed_random_state)]
-    #[kani::stub(TableWriter::write_slice, write_slice_count)]
-    fn packed_points_declared_size_127() { declared_size_matches_written(127) }
-    //@harness fns=PackedPointNumbers::compute_size
-    #[kani::proof]
-    #[kani::unwind(132)]
-    #[kani::stub(std::hash::RandomState::new, fixed_random_state)]
-    #[kani::stub(TableWriter::write_slice, write_slice_count)]
-    fn packed_points_declared_size_128() { declared_size_matches_written(128) }
-    //@harness fns=PackedPointNumbers::compute_size
-    #[kani::proof]
-    #[kani::unwind(132)]
-    #[kani::stub(std::hash::RandomState::new, fixed_random_state)]
-    #[kani::stub(TableWriter::write_slice, write_slice_count)]
-    fn packed_points_declared_size_129() { declared_size_matches_written(129) }
+    // NOTE: harnesses comparing PackedPointNumbers::compute_size with the number of bytes written at the 127/128/129
+    // point boundary (needs a 128-element Vec through the run iterator) did not finish within 900 s / 16 GB and were
+    // removed; the declared-size clause for point numbers is NOT covered.
 }
